@@ -31,6 +31,12 @@ Translation conventions (the trusted part — kept deliberately small and syntax
   * while loops become a Fixpoint on fuel returning the tuple of variables assigned in the body
     (fuel exhausted -> Fuel); the fuel constant is a parameter of the generated function's loop (LOOP_FUEL)
   * every variable is assumed to hold a value inside the range of its Rust type (Rust's typing invariant)
+  * block scoping is kept by nesting; the two places where re-binding by name could differ from Rust's scoping are
+    rejected instead of translated: a branch or loop body that re-declares a variable it also assigns, and a branch or
+    match arm that falls through to the following statements after re-declaring (or pattern-binding) an outer variable
+  * a free function with the name of a kernel function shadows it in its own file only (file-scoped name); a call of a
+    local function that could not be translated is untranslatable, it never falls back to the imported one
+  * functions outside the subset that a translated function needs (str_to_dec) become parameters of the translation
 """
 import json, os, re, sys
 
@@ -1668,11 +1674,17 @@ class Fn:
         if jump:
             def after(env2):
                 return rest(env)      # variables assigned in the branch were re-bound under the same names
+            for b_ in (th, el_blk):
+                if set(declared(b_)) & set(env) and not always_jumps(b_):
+                    raise Unsupported("a branch that falls through re-declares an outer variable")
             tcode, _ = self.block_stmts(th, env, rest)
             ecode, _ = self.block_stmts(el_blk, env, rest)
             return self.wrap(pc, "if %s then\n%s\nelse\n%s" % (c, tcode, ecode)), False
         mv = [z for z in assigned(th) + assigned(el_blk) if z in env]
         mv = list(dict.fromkeys(mv))
+        if set(mv) & set(declared(th) + declared(el_blk)):
+            # an assignment inside the branch might target an inner variable of the same name: not modelled
+            raise Unsupported("a branch re-declares a variable that it also assigns")
         if not mv:
             # no visible effect except possible panics
             tcode, tp = self.block_stmts(th, env, lambda e2: ("Val tt", True))
@@ -1739,6 +1751,9 @@ class Fn:
             blk = body
             if blk[1] is not None and blk[1][0] not in ("if", "match"):
                 raise Unsupported("match statement arm with a value")
+            shadow = (set(declared(blk)) | set(pat_vars(pat))) & set(env)
+            if shadow and not always_jumps(blk):
+                raise Unsupported("a match arm that falls through re-binds an outer variable")
             code, _ = self.block_stmts(blk, env2, rest)
             arms.append("| %s =>\n%s" % (cp, code))
         return self.wrap(ps, "match %s with\n%s\nend" % (s, "\n".join(arms))), False
@@ -1754,6 +1769,8 @@ class Fn:
         if has_ret and getattr(self, "loop_ctx", None):
             raise Unsupported("return inside nested loops")
         mv = [z for z in dict.fromkeys(assigned(body)) if z in env]
+        if set(mv) & set(declared(body)):
+            raise Unsupported("a loop body re-declares a variable that it also assigns")
         fv = [z for z in dict.fromkeys(free_vars(cnd) + free_vars_block(body)) if z in env]
         fv = mv + [z for z in fv if z not in mv]
         lname = "%s_loop%d" % (coq_name(self.f["name"]), len(self.loops) + 1)
@@ -2000,6 +2017,49 @@ def assigned(blk):
         if n[0] == "call":
             for a in n[2]:
                 if a[0] == "mutref" and a[1][0] == "path": out.append(a[1][1][0])
+    if blk is not None:
+        walk_block(blk, f)
+    return out
+
+
+def always_jumps(blk):
+    """every path through the block ends in return / break / panic (so nothing after the block sees its bindings)"""
+    if blk is None: return False
+    stmts, tail = blk
+    if tail is not None:
+        return tail[0] == "macro" and tail[1] in ("panic", "unreachable")
+    if not stmts: return False
+    last = stmts[-1]
+    if last[0] in ("return", "break"): return True
+    if last[0] == "expr":
+        e = last[1]
+        if e[0] == "macro" and e[1] in ("panic", "unreachable"): return True
+        if e[0] == "if": return e[3] is not None and always_jumps(e[2]) and always_jumps(e[3] if e[3][0] != [] or e[3][1] is None or e[3][1][0] != "if" else ([("expr", e[3][1])], None))
+        if e[0] == "match": return all(always_jumps(b) for _, b in e[2])
+    return False
+
+
+def pat_vars(p_):
+    if p_[0] == "pvar": return [p_[1]]
+    if p_[0] in ("ptup", "por"): return [v for q in p_[1] for v in pat_vars(q)]
+    if p_[0] == "pctor": return [v for q in p_[2] for v in pat_vars(q)]
+    return []
+
+
+def declared(blk):
+    """names bound by let / patterns anywhere inside a block"""
+    out = []
+
+    def pv(p_):
+        if p_[0] == "pvar": out.append(p_[1])
+        elif p_[0] in ("ptup",): [pv(q) for q in p_[1]]
+        elif p_[0] == "pctor": [pv(q) for q in p_[2]]
+        elif p_[0] == "por": [pv(q) for q in p_[1]]
+
+    def f(n):
+        if n[0] == "let": pv(n[1])
+        if n[0] == "match":
+            for p_, _ in n[2]: pv(p_)
     if blk is not None:
         walk_block(blk, f)
     return out
